@@ -520,6 +520,46 @@ def rule_CP12(rep, prog, q):
         rep.unknown(rid, "fewer than 10 retried compare-exchanges found (%d)" % n)
 
 
+def rule_MP14(rep, prog, q):
+    rid = rep.rule("C01-MP14", "root-queue consumer: after taking the head with the MEDIATOR exchange, the head word is written with a plain store only by a thread that "
+                   "got a real item (it then owns the list up to the tail); a thread that found the head NULL owns nothing - an enqueuer that saw an empty tail may "
+                   "write the head at any moment - and gives the MEDIATOR back only by compare-exchange MEDIATOR -> NULL", floor=2)
+    n = 0
+    M64 = (1 << 64) - 1
+    for fn in prog.all_functions():
+        xs = [i for i in fn.all_insts() if i.op == "atomicrmw" and i.d["rmw"] == "xchg" and "dq_items_head" in prog.fields(i)
+              and i.ops[1][0] == "c" and i.ops[1][1] == M64]
+        for x in xs:
+            rep.saw(fn)
+            stores = [s_ for s_ in fn.all_insts() if s_.op == "store" and "dq_items_head" in prog.fields(s_)]
+            for kind, inst, cx, path in paths.walk(fn, x, lambda i: i in stores or i is x):
+                if kind != "hit" or inst is x:
+                    continue
+                n += 1
+                v = cx.value(("i", x.id))
+                owns = (("i", x.id) in cx.nonnull) and v is None or (isinstance(v, tuple) and v[0] == "c" and v[1] not in (0, M64))
+                # the MEDIATOR case is excluded by the same switch / tests: reaching the store with the result known NULL or MEDIATOR, or not known non-NULL
+                empty = v == paths.NULL or (isinstance(v, tuple) and v[0] == "c" and v[1] in (0, M64))
+                rep.require(rid, not empty and (("i", x.id) in cx.nonnull), inst.loc, x.origin, "root-head-plain-store-without-item:%s" % x.origin,
+                            "%s stores to dq_items_head with a plain store on a path where the MEDIATOR exchange returned %s (path %s): only the thread that obtained an "
+                            "item may do that; with the head found NULL a concurrent enqueuer's `head = item` can land between the exchange and this store and is "
+                            "overwritten - head NULL with a non-empty tail: the global queue never runs anything again"
+                            % (x.origin, "NULL" if empty else "a value not established to be an item", path), sample={"site": x.origin, "store": inst.loc})
+    if n < 2:
+        rep.unknown(rid, "expected the two head restores of _dispatch_root_queue_drain_one, found %d" % n)
+
+
+def rule_CP13(rep, prog, q):
+    from .sync_common import rule_cas_memoryless
+    rid = rep.rule("C01-CP13", "every compare-exchange retry loop in the library is memoryless: besides the re-read word nothing computed by a failed attempt (a flag, "
+                   "a decision 'nobody to wake') is carried into the attempt that succeeds on a different state", floor=10)
+    n = rule_cas_memoryless(rep, rid, prog, fields=None, exceptions={
+        "_dispatch_root_queue_poke_slow": "the thread request is clamped monotonically (remaining = min(remaining, can_request)) and each clamp returns the surplus "
+                                          "to dgq_pending in the same iteration: carrying the clamped request is the intended behaviour"})
+    if n < 10:
+        rep.unknown(rid, "fewer than 10 compare-exchange retry loops found (%d)" % n)
+
+
 def run(rep, tier="quick", srcdir=None, only=None):
     prog, units = load(UNITS, tier, srcdir)
     rep.units = units
@@ -558,17 +598,31 @@ def run(rep, tier="quick", srcdir=None, only=None):
         # queues chained onto a workloop: draining more than one item must not fault on the anonymous wlh (shared with C03)
         from . import C03
         C03.rule_WL10(rep, prog, q)
-    if want("C01-CP12"):
-        rule_CP12(rep, ir.Program(build.facts_for("all", srcdir=srcdir)), q)
+    if want("C01-CP12") or want("C01-CP13"):
+        allprog = ir.Program(build.facts_for("all", srcdir=srcdir))
+        if want("C01-CP12"):
+            rule_CP12(rep, allprog, q)
+        if want("C01-CP13"):
+            rule_CP13(rep, allprog, q)
+    if want("C01-MP14"):
+        rule_MP14(rep, prog, q)
     if want("C01-AI11"):
         rule_AI11(rep, ir.Program(build.facts_for(["event/workqueue"], srcdir=srcdir)), q)
     if want("C03-MP11"):
         from . import C03
         C03.rule_MP11(rep, prog, q)
+    if want("C03-MP5"):
+        # chained queues: a waiter pushed down a hierarchy carries the lock kind of the level it is queued on, or that level is never released (shared with C03)
+        from . import C03
+        C03.rule_MP5(rep, prog, q)
     if want("C04-MP4"):
         # the last reader's hand-over: DIRTY when drain-locked, otherwise take over / enqueue (shared with C04)
         from . import C04
         C04.rule_MP4(rep, prog, q, ts)
+    if want("C04-TR2"):
+        # the barrier's width reservation is made once: a double reservation strands the barrier and everything queued behind it (shared with C04)
+        from . import C04
+        C04.rule_TR2(rep, prog, q, ts)
     if want("C05-WR3"):
         # sync callers are released only by a real hand-off (shared with C05)
         from . import C05
